@@ -143,7 +143,7 @@ func (w *world) stepOf(allowCleanNew bool, menu []int) {
 		}
 		dirty := m.touched || vf.Choose(2) == 1
 		if m.fresh && !allowCleanNew {
-			dirty = true // a page that never reached the disk is released dirty (what every caller in the repo does)
+			dirty = true // (only the shared-pin scenario keeps this restriction; the histories release new pages clean, too)
 		}
 		w.bpm.UnpinPage(m.id, dirty)
 		if dirty {
@@ -215,7 +215,7 @@ func sharedPins(pool, k int) {
 	m.pins, m.touched, m.handle, m.fresh = 0, false, nil, false
 	w.bpm.FlushPage(m.id)
 	for i := 0; i < k; i++ {
-		w.stepOf(false, []int{0, 1, 2, 3})
+		w.stepOf(true, []int{0, 1, 2, 3})
 	}
 	for _, m := range w.pages {
 		if m.alive && (m.pins > 0 || w.pinnedPages() < w.pool) {
@@ -230,16 +230,16 @@ func sharedPins(pool, k int) {
 func VF_C13_Shared_P1_K7() { sharedPins(1, 7) }
 func VF_C13_Shared_P2_K7() { sharedPins(2, 7) }
 
-func VF_C13_File_P1_K4()  { history(1, 4, false, false) }
-func VF_C13_File_P2_K4()  { history(2, 4, false, false) }
-func VF_C13_File_P2_K5()  { history(2, 5, false, false) }
-func VF_C13_File_P3_K5()  { history(3, 5, false, false) }
-func VF_C13_File_P2_K6()  { history(2, 6, false, false) }
-func VF_C13_File_P2_K7()  { history(2, 7, false, false) }
-func VF_C13_File_P3_K6()  { history(3, 6, false, false) }
-func VF_C13_Virt_P1_K4()  { history(1, 4, true, false) }
-func VF_C13_Virt_P2_K4()  { history(2, 4, true, false) }
-func VF_C13_Virt_P2_K5()  { history(2, 5, true, false) }
-func VF_C13_Virt_P2_K6()  { history(2, 6, true, false) }
+func VF_C13_File_P1_K4()  { history(1, 4, false, true) }
+func VF_C13_File_P2_K4()  { history(2, 4, false, true) }
+func VF_C13_File_P2_K5()  { history(2, 5, false, true) }
+func VF_C13_File_P3_K5()  { history(3, 5, false, true) }
+func VF_C13_File_P2_K6()  { history(2, 6, false, true) }
+func VF_C13_File_P2_K7()  { history(2, 7, false, true) }
+func VF_C13_File_P3_K6()  { history(3, 6, false, true) }
+func VF_C13_Virt_P1_K4()  { history(1, 4, true, true) }
+func VF_C13_Virt_P2_K4()  { history(2, 4, true, true) }
+func VF_C13_Virt_P2_K5()  { history(2, 5, true, true) }
+func VF_C13_Virt_P2_K6()  { history(2, 6, true, true) }
 func VF_C13_CleanNew_P1_K4() { history(1, 4, false, true) }
 func VF_C13_CleanNew_P2_K5() { history(2, 5, false, true) }
